@@ -41,6 +41,8 @@ const TAGNAME_CFGS: &[(&str, &str)] = &[
     ("tl", "rm"),
     ("rm", "tl"),
     ("期限", "印"),
+    // one name a proper prefix of the other
+    ("tl", "t"),
 ];
 
 #[derive(Debug, Clone)]
